@@ -13,6 +13,12 @@ HARNESSES = [
     S('S_acquire_async', 'H_ASYNC', 'real _dispatch_queue_try_acquire_async: all states'),
     S('S_held_excludes_all', 'H_HELD', 'summary lemma: owner+IN_BARRIER held by another thread => all four acquisitions fail'),
 ]
+HARNESSES.append(H('S_mainq_sync_held', 'h_mainq.c', ['dispatch_sync_f', 'dispatch_barrier_sync_f', 'dispatch_async_and_wait_f', 'dispatch_barrier_async_and_wait_f', '_dispatch_main_q', '__dispatch_tsd'],
+    stubs=['_dispatch_bug', 'libdispatch_tsd_init', '_dispatch_set_basepri_override_qos', '_dispatch_queue_wakeup_with_override_slow', '_dispatch_client_callout', '_dispatch_main_queue_wakeup', '_dispatch_lane_wakeup', '_dispatch_futex_wait', '_dispatch_futex_wake',
+           '_dispatch_unfair_lock_lock_slow', '_dispatch_unfair_lock_unlock_slow'],
+    noglobal=['_dispatch_queue_attrs', '_dispatch_mgr_q'], icall_only=['_dispatch_main_queue_push', '_dispatch_main_queue_wakeup', '_dispatch_lane_push', '_dispatch_lane_wakeup', '_dispatch_async_and_wait_invoke', '_dispatch_sync_function_invoke'],
+    nt=1, heap=1024, unwind=5, probes=ST_PROBES, timeout=600, witness_any=True,
+    note='real dispatch_sync_f / barrier_sync_f / async_and_wait_f / barrier_async_and_wait_f on the real _dispatch_main_q held by another thread (all other state bits arbitrary): the item is never run inline; the caller enqueues itself and sleeps'))
 # ---- tier H: histories on one serial queue (shared harness): FIFO, one at a time, and nested submissions by a second client thread while an item is running
 from hist_spec import HH
 from seqs import seqs
